@@ -13,10 +13,12 @@ import (
 	"strings"
 	"testing"
 	"time"
+	"unicode/utf8"
 
 	"github.com/codelaboratoryltd/bng/pkg/allocator"
 	"pgregory.net/rapid"
 
+	"bngverif/internal/pools"
 	"bngverif/internal/vstat"
 )
 
@@ -32,7 +34,7 @@ func genSops(rt *rapid.T, label string, kinds []string, lo, hi int) []sop {
 	n := rapid.IntRange(lo, hi).Draw(rt, label+"N")
 	out := make([]sop, n)
 	for i := range out {
-		out[i] = sop{rapid.SampledFrom(kinds).Draw(rt, label+"Kind"), rapid.IntRange(0, len(subs)-1).Draw(rt, label+"Sub"), rapid.IntRange(0, 15).Draw(rt, label+"Arg")}
+		out[i] = sop{rapid.SampledFrom(kinds).Draw(rt, label+"Kind"), rapid.IntRange(0, nSubs-1).Draw(rt, label+"Sub"), rapid.IntRange(0, 15).Draw(rt, label+"Arg")}
 	}
 	return out
 }
@@ -83,6 +85,25 @@ func errClass(err error) string {
 	return "err"
 }
 
+// kindNonUTF8: everything noticed after restoring an instance that held subscriber ids which are not valid
+// UTF-8 (raw DHCPv6 DUIDs) is one finding: encoding/json replaces the offending bytes by U+FFFD on the way out,
+// so the ids are not restored (and ids that differ only in such bytes become one id).
+const kindNonUTF8 = "restore-differs/non-utf8-subscriber-id"
+
+// nonUTF8Kind maps a post-restore difference kind to kindNonUTF8 if an id that is not valid UTF-8 was used
+// before serialisation (hist names the ids by index, so every id of the alphabet counts once one is invalid).
+func nonUTF8Kind(kind string, ids []string, hist []string) string {
+	if !(strings.HasPrefix(kind, "restore-") || kind == "unmarshal-error" || kind == "remarshal-differs" || kind == "panic") {
+		return kind
+	}
+	for _, id := range ids {
+		if !utf8.ValidString(id) {
+			return kindNonUTF8
+		}
+	}
+	return kind
+}
+
 // ---- IPAllocator --------------------------------------------------------------
 
 func genBitmapGeom(rt *rapid.T) (string, int, string) {
@@ -111,7 +132,7 @@ func bitmapProbes(cidr string, unit int) []*net.IPNet {
 	return out
 }
 
-func compareBitmap(a, r *allocator.IPAllocator, cidr string, unit int) *diff {
+func compareBitmap(a, r *allocator.IPAllocator, cidr string, unit int, ids []string) *diff {
 	var d *diff
 	aa, at, au := a.Stats()
 	ra, rtot, ru := r.Stats()
@@ -119,7 +140,7 @@ func compareBitmap(a, r *allocator.IPAllocator, cidr string, unit int) *diff {
 	cmp(&d, "IsIPv6", a.IsIPv6(), r.IsIPv6())
 	cmp(&d, "PrefixLength", a.PrefixLength(), r.PrefixLength())
 	cmp(&d, "BaseNetwork", a.BaseNetwork().String(), r.BaseNetwork().String())
-	for _, s := range subs {
+	for _, s := range ids {
 		cmp(&d, "Lookup", ipn(a.Lookup(s)), ipn(r.Lookup(s)))
 	}
 	for _, p := range bitmapProbes(cidr, unit) {
@@ -141,8 +162,8 @@ func compareBitmap(a, r *allocator.IPAllocator, cidr string, unit int) *diff {
 
 // applyBitmap applies one op; returns a printable result.  moved reports a SetAllocation that
 // changed a subscriber's prefix (see the steering note in TestPropSerialBitmap).
-func applyBitmap(x *allocator.IPAllocator, o sop, cidr string, unit int, allowMove bool) (res string, moved bool) {
-	s := subs[o.Sub]
+func applyBitmap(x *allocator.IPAllocator, o sop, cidr string, unit int, allowMove bool, ids []string) (res string, moved bool) {
+	s := ids[o.Sub]
 	units := poolUnits(cidr, unit)
 	idx := o.Arg % (units + 1) // one past the end: out of range
 	switch o.Kind {
@@ -182,6 +203,10 @@ func TestPropSerialBitmap(t *testing.T) {
 		if err != nil {
 			rt.Fatalf("generator produced a geometry the constructor rejects: %v", err)
 		}
+		// IPAllocator is what PoolAllocator wraps, and pkg/dhcpv6 hands PoolAllocator the raw client DUID as
+		// subscriber id: the raw-DUID alphabet is part of this allocator's domain
+		sch := pools.GenIDSchemeRaw(nSubs, "p1").Draw(rt, "ids")
+		ids := sch.IDs
 		pre := genSops(rt, "pre", bitmapKinds, 0, 20)
 		post := genSops(rt, "post", bitmapKinds, 1, 12)
 		intoUsed := rapid.IntRange(0, 3).Draw(rt, "restoreIntoUsed") == 0
@@ -192,12 +217,17 @@ func TestPropSerialBitmap(t *testing.T) {
 		var hist []string
 		moved := false
 		for _, o := range pre {
-			res, mv := applyBitmap(a, o, cidr, unit, allowMove)
+			res, mv := applyBitmap(a, o, cidr, unit, allowMove, ids)
 			moved = moved || mv
 			hist = append(hist, o.String()+"="+res)
 		}
 		fail := func(kind, f string, args ...any) bool {
-			return vstat.Fail(rt, "C12/bitmap/"+kind, "%s\n  pool %s unit /%d\n  history: %s", fmt.Sprintf(f, args...), cidr, unit, strings.Join(hist, "; "))
+			kind = nonUTF8Kind(kind, ids, hist)
+			known := vstat.Fail(rt, "C12/bitmap/"+kind, "%s\n  pool %s unit /%d ids(%s) %q\n  history: %s", fmt.Sprintf(f, args...), cidr, unit, sch.Name, ids, strings.Join(hist, "; "))
+			if known && kind == kindNonUTF8 {
+				vstat.Case(false, 0, nil, "impl:bitmap", "ids:"+sch.Name, "known-hit")
+			}
+			return known
 		}
 		data, err := json.Marshal(a)
 		if err != nil {
@@ -208,14 +238,14 @@ func TestPropSerialBitmap(t *testing.T) {
 		if intoUsed {
 			r, _ = allocator.NewIPAllocator("192.0.2.0/28", 32)
 			r.Allocate("zz")
-			r.Allocate("s1")
+			r.Allocate(ids[1])
 		}
 		if err := json.Unmarshal(data, r); err != nil {
 			fail("unmarshal-error", "UnmarshalJSON of the allocator's own output: %v\n  json: %s", err, data)
 			return
 		}
 		hist = append(hist, "RESTORE")
-		if d := compareBitmap(a, r, cidr, unit); d != nil {
+		if d := compareBitmap(a, r, cidr, unit, ids); d != nil {
 			if fail("restore-query-differs/"+d.query, "%s: %s", d.query, d.detail) {
 				return
 			}
@@ -224,8 +254,8 @@ func TestPropSerialBitmap(t *testing.T) {
 			var ra, rr string
 			var mv bool
 			if p := guard(func() {
-				ra, mv = applyBitmap(a, o, cidr, unit, allowMove)
-				rr, _ = applyBitmap(r, o, cidr, unit, allowMove)
+				ra, mv = applyBitmap(a, o, cidr, unit, allowMove, ids)
+				rr, _ = applyBitmap(r, o, cidr, unit, allowMove, ids)
 			}); p != "" {
 				fail("panic", "%s panicked: %s", o, p)
 				return
@@ -239,7 +269,7 @@ func TestPropSerialBitmap(t *testing.T) {
 				fail("restore-continuation-differs/"+o.Kind+sfx, "%s: original %s, restored %s", o, ra, rr)
 				return
 			}
-			if d := compareBitmap(a, r, cidr, unit); d != nil {
+			if d := compareBitmap(a, r, cidr, unit, ids); d != nil {
 				fail("restore-continuation-differs/"+d.query+sfx, "after %s %s: %s", o, d.query, d.detail)
 				return
 			}
@@ -252,7 +282,7 @@ func TestPropSerialBitmap(t *testing.T) {
 			return
 		}
 		aa, _, _ := a.Stats()
-		cls := []string{"impl:bitmap", "geom:" + gclass}
+		cls := []string{"impl:bitmap", "geom:" + gclass, "ids:" + sch.Name}
 		if intoUsed {
 			cls = append(cls, "restore-into-used-instance")
 		}
@@ -260,8 +290,8 @@ func TestPropSerialBitmap(t *testing.T) {
 			cls = append(cls, "setallocation-move")
 		}
 		nt := aa >= 1 && len(pre) >= 3
-		vstat.Case(nt, vstat.Hash("bitmap", cidr, unit, sopsString(pre), sopsString(post), intoUsed), func() any {
-			return map[string]any{"impl": "bitmap", "pool": cidr, "unit": unit, "history": hist}
+		vstat.Case(nt, vstat.Hash("bitmap", cidr, unit, sopsString(pre), sopsString(post), intoUsed, strings.Join(ids, "\x00")), func() any {
+			return map[string]any{"impl": "bitmap", "pool": cidr, "unit": unit, "id_scheme": sch.Name, "ids": ids, "history": hist}
 		}, cls...)
 	})
 }
@@ -281,14 +311,14 @@ func epochProbes(cidr string, total int) []net.IP {
 	return out
 }
 
-func compareEpoch(a, r *allocator.EpochBitmapAllocator, cidr string, total int) *diff {
+func compareEpoch(a, r *allocator.EpochBitmapAllocator, cidr string, total int, ids []string) *diff {
 	var d *diff
 	if p := guard(func() {
 		cmp(&d, "GetCurrentEpoch", a.GetCurrentEpoch(), r.GetCurrentEpoch())
 		aa, at, au := a.Stats()
 		ra, rtot, ru := r.Stats()
 		cmp(&d, "Stats", fmt.Sprint(aa, at, au), fmt.Sprint(ra, rtot, ru))
-		for _, s := range subs {
+		for _, s := range ids {
 			cmp(&d, "Lookup", a.Lookup(s), r.Lookup(s))
 		}
 		for _, ip := range epochProbes(cidr, total) {
@@ -300,9 +330,9 @@ func compareEpoch(a, r *allocator.EpochBitmapAllocator, cidr string, total int) 
 	return d
 }
 
-func applyEpoch(x *allocator.EpochBitmapAllocator, o sop) string {
+func applyEpoch(x *allocator.EpochBitmapAllocator, o sop, ids []string) string {
 	ctx := context.Background()
-	s := subs[o.Sub]
+	s := ids[o.Sub]
 	switch o.Kind {
 	case "alloc":
 		ip, err := x.Allocate(ctx, s)
@@ -339,6 +369,8 @@ func TestPropSerialEpoch(t *testing.T) {
 			rt.Fatalf("constructor rejects generated config %+v: %v", cfg, err)
 		}
 		total := 1 << (unit - pl)
+		sch := pools.GenIDScheme(nSubs, "p1").Draw(rt, "ids")
+		ids := sch.IDs
 		pre := genSops(rt, "pre", epochKinds, 0, 20)
 		post := genSops(rt, "post", epochKinds, 1, 14)
 		intoUsed := rapid.IntRange(0, 3).Draw(rt, "restoreIntoUsed") == 0
@@ -369,7 +401,7 @@ func TestPropSerialEpoch(t *testing.T) {
 		var hist []string
 		expiries := 0
 		for _, o := range pre {
-			hist = append(hist, o.String()+"="+applyEpoch(a, o))
+			hist = append(hist, o.String()+"="+applyEpoch(a, o, ids))
 			if o.Kind == "advance" {
 				expiries++
 			}
@@ -380,7 +412,7 @@ func TestPropSerialEpoch(t *testing.T) {
 		}
 		fail := func(kind, f string, args ...any) bool {
 			// one signature space for both unit classes (only the serialised-pool check below is unit specific)
-			return vstat.Fail(rt, "C12/epoch/"+kind, "%s\n  config %+v\n  history: %s", fmt.Sprintf(f, args...), cfg, strings.Join(hist, "; "))
+			return vstat.Fail(rt, "C12/epoch/"+kind, "%s\n  config %+v ids(%s) %q\n  history: %s", fmt.Sprintf(f, args...), cfg, sch.Name, ids, strings.Join(hist, "; "))
 		}
 		data, err := json.Marshal(a)
 		if err != nil {
@@ -402,7 +434,7 @@ func TestPropSerialEpoch(t *testing.T) {
 		if intoUsed {
 			r, _ = allocator.NewEpochBitmapAllocator(allocator.EpochBitmapConfig{BaseNetwork: "192.0.2.0/28", PrefixLength: 32, GracePeriod: 2})
 			r.Allocate(context.Background(), "zz")
-			r.Allocate(context.Background(), "s1")
+			r.Allocate(context.Background(), ids[1])
 			r.AdvanceEpoch()
 		}
 		if err := json.Unmarshal(data, r); err != nil {
@@ -410,7 +442,7 @@ func TestPropSerialEpoch(t *testing.T) {
 			return
 		}
 		hist = append(hist, "RESTORE")
-		if d := compareEpoch(a, r, cidr, total); d != nil {
+		if d := compareEpoch(a, r, cidr, total, ids); d != nil {
 			if fail("restore-query-differs/"+d.query, "%s: %s", d.query, d.detail) {
 				return
 			}
@@ -419,9 +451,9 @@ func TestPropSerialEpoch(t *testing.T) {
 			var ra, rr string
 			otherFree := false
 			if p := guard(func() {
-				ra = applyEpoch(a, o)
+				ra = applyEpoch(a, o, ids)
 				aFreeInR := o.Kind == "alloc" && strings.HasSuffix(ra, ",ok") && r.LookupByIP(net.ParseIP(strings.TrimSuffix(ra, ",ok"))) == ""
-				rr = applyEpoch(r, o)
+				rr = applyEpoch(r, o, ids)
 				// both succeeded, and each instance's choice was free on the other one: only the choice among free addresses differs
 				otherFree = aFreeInR && ra != rr && strings.HasSuffix(rr, ",ok") && a.LookupByIP(net.ParseIP(strings.TrimSuffix(rr, ",ok"))) == ""
 			}); p != "" {
@@ -435,11 +467,11 @@ func TestPropSerialEpoch(t *testing.T) {
 					kind += "-picks-other-free-address"
 				}
 				if fail(kind, "%s: original %s, restored %s", o, ra, rr) {
-					vstat.Case(true, vstat.Hash("epoch", cidr, unit, grace, sopsString(pre), sopsString(post), intoUsed), nil, "impl:"+impl, "known-hit")
+					vstat.Case(true, vstat.Hash("epoch", cidr, unit, grace, sopsString(pre), sopsString(post), intoUsed, strings.Join(ids, "\x00")), nil, "impl:"+impl, "known-hit")
 				}
 				return
 			}
-			if d := compareEpoch(a, r, cidr, total); d != nil {
+			if d := compareEpoch(a, r, cidr, total, ids); d != nil {
 				fail("restore-continuation-differs/"+d.query, "after %s %s: %s", o, d.query, d.detail)
 				return
 			}
@@ -450,7 +482,7 @@ func TestPropSerialEpoch(t *testing.T) {
 			fail("remarshal-differs", "original serialises to %s, restored to %s", d1, d2)
 			return
 		}
-		cls := []string{"impl:" + impl, uclass, fmt.Sprintf("grace:%d", grace)}
+		cls := []string{"impl:" + impl, uclass, fmt.Sprintf("grace:%d", grace), "ids:" + sch.Name}
 		if intoUsed {
 			cls = append(cls, "restore-into-used-instance")
 		}
@@ -460,8 +492,8 @@ func TestPropSerialEpoch(t *testing.T) {
 		if exercise {
 			cls = append(cls, "exercise-known")
 		}
-		vstat.Case(len(pre) >= 3, vstat.Hash("epoch", cidr, unit, grace, sopsString(pre), sopsString(post), intoUsed), func() any {
-			return map[string]any{"impl": impl, "config": fmt.Sprintf("%+v", cfg), "history": hist}
+		vstat.Case(len(pre) >= 3, vstat.Hash("epoch", cidr, unit, grace, sopsString(pre), sopsString(post), intoUsed, strings.Join(ids, "\x00")), func() any {
+			return map[string]any{"impl": impl, "config": fmt.Sprintf("%+v", cfg), "id_scheme": sch.Name, "ids": ids, "history": hist}
 		}, cls...)
 	})
 }
@@ -504,7 +536,7 @@ func recsString(rs []allocator.AllocationRecord, err error) string {
 	return strings.Join(l, " ; ") + " " + errClass(err)
 }
 
-func compareMemStore(a, r *allocator.MemoryAllocationStore, probes []net.IP) *diff {
+func compareMemStore(a, r *allocator.MemoryAllocationStore, probes []net.IP, ids []string) *diff {
 	ctx := context.Background()
 	var d *diff
 	cmp(&d, "Count", a.Count(), r.Count())
@@ -519,7 +551,7 @@ func compareMemStore(a, r *allocator.MemoryAllocationStore, probes []net.IP) *di
 		ra, rtot, re := r.GetPoolUtilization(ctx, p.id)
 		cmp(&d, "GetPoolUtilization", fmt.Sprint(aa, at, ae), fmt.Sprint(ra, rtot, re))
 	}
-	for _, s := range subs {
+	for _, s := range ids {
 		cmp(&d, "GetBySubscriber", recsString(a.GetBySubscriber(ctx, s)), recsString(r.GetBySubscriber(ctx, s)))
 	}
 	for _, pt := range []allocator.PoolType{allocator.PoolTypeIPv4Address, allocator.PoolTypeIPv6Address, allocator.PoolTypeIPv6Prefix, ""} {
@@ -564,10 +596,10 @@ func (m *msState) freeIdx(p msPool, want int) int {
 }
 
 // applyMemStore applies a direct store operation built only from (op, model state).
-func applyMemStore(x *allocator.MemoryAllocationStore, m *msState, o sop, commit bool, allowMove bool) (string, string) {
+func applyMemStore(x *allocator.MemoryAllocationStore, m *msState, o sop, commit bool, allowMove bool, ids []string) (string, string) {
 	ctx := context.Background()
 	p := msPools[o.Arg%len(msPools)]
-	s := subs[o.Sub]
+	s := ids[o.Sub]
 	k := p.id + "/" + s
 	class := ""
 	switch o.Kind {
@@ -636,6 +668,9 @@ func TestPropSerialMemStore(t *testing.T) {
 			pas = append(pas, pa)
 		}
 		m := &msState{held: map[string]string{}}
+		// the store's real writer is PoolAllocator on behalf of pkg/dhcpv6 (raw client DUID as subscriber id)
+		sch := pools.GenIDSchemeRaw(nSubs, msPools[0].id).Draw(rt, "ids")
+		ids := sch.IDs
 		viaPool := genSops(rt, "pool", []string{"palloc", "palloc", "palloc", "prelease"}, 0, 12)
 		pre := genSops(rt, "pre", msKinds, 0, 10)
 		post := genSops(rt, "post", msKinds, 1, 10)
@@ -650,17 +685,17 @@ func TestPropSerialMemStore(t *testing.T) {
 		}
 		for _, o := range viaPool {
 			i := o.Arg % len(msPools)
-			s := subs[o.Sub]
+			s := ids[o.Sub]
 			k := msPools[i].id + "/" + s
 			if o.Kind == "palloc" {
 				p, err := pas[i].Allocate(ctx, s, fmt.Sprintf("02:00:00:00:01:%02x", o.Sub))
-				hist = append(hist, fmt.Sprintf("pool[%s].Allocate(%s)=%s,%s", msPools[i].id, s, ipn(p), errClass(err)))
+				hist = append(hist, fmt.Sprintf("pool[%s].Allocate(%q)=%s,%s", msPools[i].id, s, ipn(p), errClass(err)))
 				if err == nil {
 					m.held[k] = p.String()
 				}
 			} else {
 				err := pas[i].Release(ctx, s)
-				hist = append(hist, fmt.Sprintf("pool[%s].Release(%s)=%s", msPools[i].id, s, errClass(err)))
+				hist = append(hist, fmt.Sprintf("pool[%s].Release(%q)=%s", msPools[i].id, s, errClass(err)))
 				if err == nil {
 					delete(m.held, k)
 				}
@@ -669,7 +704,7 @@ func TestPropSerialMemStore(t *testing.T) {
 		}
 		moved := false
 		for _, o := range pre {
-			res, c := applyMemStore(a, m, o, true, allowMove)
+			res, c := applyMemStore(a, m, o, true, allowMove, ids)
 			moved = moved || c == "resave-different-prefix"
 			hist = append(hist, o.String()+"="+res)
 			note()
@@ -681,7 +716,10 @@ func TestPropSerialMemStore(t *testing.T) {
 			return ""
 		}
 		fail := func(kind, f string, args ...any) bool {
-			return vstat.Fail(rt, "C12/memstore/"+kind+sfx(), "%s\n  history: %s", fmt.Sprintf(f, args...), strings.Join(hist, "; "))
+			if k := nonUTF8Kind(kind, ids, hist); k == kindNonUTF8 {
+				return vstat.Fail(rt, "C12/memstore/"+k, "%s\n  ids(%s) %q\n  history: %s", fmt.Sprintf(f, args...), sch.Name, ids, strings.Join(hist, "; "))
+			}
+			return vstat.Fail(rt, "C12/memstore/"+kind+sfx(), "%s\n  ids(%s) %q\n  history: %s", fmt.Sprintf(f, args...), sch.Name, ids, strings.Join(hist, "; "))
 		}
 		data, err := json.Marshal(a)
 		if err != nil {
@@ -713,7 +751,7 @@ func TestPropSerialMemStore(t *testing.T) {
 			return out
 		}
 		known := false
-		if d := compareMemStore(a, r, probes()); d != nil {
+		if d := compareMemStore(a, r, probes(), ids); d != nil {
 			if fail("restore-query-differs/"+d.query, "%s: %s", d.query, d.detail) {
 				known = true
 			}
@@ -722,8 +760,8 @@ func TestPropSerialMemStore(t *testing.T) {
 			for _, o := range post {
 				var ra, rr, c string
 				if p := guard(func() {
-					ra, c = applyMemStore(a, m, o, false, allowMove)
-					rr, _ = applyMemStore(r, m, o, true, allowMove)
+					ra, c = applyMemStore(a, m, o, false, allowMove, ids)
+					rr, _ = applyMemStore(r, m, o, true, allowMove, ids)
 				}); p != "" {
 					fail("panic", "%s panicked: %s", o, p)
 					return
@@ -737,7 +775,7 @@ func TestPropSerialMemStore(t *testing.T) {
 						break
 					}
 				}
-				if d := compareMemStore(a, r, probes()); d != nil {
+				if d := compareMemStore(a, r, probes(), ids); d != nil {
 					if fail("restore-continuation-differs/"+d.query, "after %s %s: %s", o, d.query, d.detail) {
 						known = true
 						break
@@ -745,7 +783,7 @@ func TestPropSerialMemStore(t *testing.T) {
 				}
 			}
 		}
-		cls := []string{"impl:memstore"}
+		cls := []string{"impl:memstore", "ids:" + sch.Name}
 		if intoUsed {
 			cls = append(cls, "restore-into-used-instance")
 		}
@@ -755,15 +793,15 @@ func TestPropSerialMemStore(t *testing.T) {
 		if known {
 			cls = append(cls, "known-hit")
 		}
-		pools := map[string]bool{}
+		poolsSeen := map[string]bool{}
 		for k := range m.held {
-			pools[strings.SplitN(k, "/", 2)[0]] = true
+			poolsSeen[strings.SplitN(k, "/", 2)[0]] = true
 		}
-		if len(pools) >= 2 {
+		if len(poolsSeen) >= 2 {
 			cls = append(cls, "records-in>=2-pools")
 		}
-		vstat.Case(a.Count() >= 2, vstat.Hash("memstore", sopsString(viaPool), sopsString(pre), sopsString(post), intoUsed, allowMove), func() any {
-			return map[string]any{"impl": "memstore", "history": hist}
+		vstat.Case(a.Count() >= 2, vstat.Hash("memstore", sopsString(viaPool), sopsString(pre), sopsString(post), intoUsed, allowMove, strings.Join(ids, "\x00")), func() any {
+			return map[string]any{"impl": "memstore", "id_scheme": sch.Name, "ids": ids, "history": hist}
 		}, cls...)
 	})
 }
